@@ -131,6 +131,17 @@ def _multistart(prog, c7, ms):
                            f"box, say) may be the lowest-cost one")
             else:
                 raise AnalysisError(f"multistart: the ranked list `{U(rt_)[:140]}` is not recognised as the list of all runs - not decided")
+    # each run hands back what the optimiser returned, cost included (the ranking reads element 1 of it)
+    lc_, lb_ = prog.find_method(prog.cls("GpRegressor"), "launch_bfgs")
+    if lb_ is not None:
+        rl_ = Resolver(lb_, prog, lc_.module, lc_).return_terms()
+        if not (len(rl_) == 1 and isinstance(rl_[0], ast.Call) and U(rl_[0].func).split(".")[-1] == "fmin_l_bfgs_b"):
+            t0_ = rl_[0] if rl_ else None
+            ok_t = isinstance(t0_, ast.Tuple) and len(t0_.elts) >= 2 and pmatch(t0_.elts[1], "_c[1]") is not None and \
+                "fmin_l_bfgs_b" in U(t0_.elts[1]) and pmatch(t0_.elts[0], "_c[0]") is not None
+            if not ok_t:
+                why.append(f"launch_bfgs returns `{U(t0_)[:120] if t0_ is not None else None}`, not the optimiser's own (solution, cost, info): the "
+                           f"ranking by element 1 then ranks something else than the cost that was minimised")
     return struct_ob("multistart", qual(c7, ms), not why,
                      "the multi-start must include the centre of the bounds box, draw the other starts inside the box, run "
                      "L-BFGS-B from every start and return the lowest-cost solution: " + "; ".join(why), REL, ms.lineno)
@@ -180,6 +191,10 @@ def run(prog, tier):
     from .common import borrow
     shared = borrow(prog, tier, "C10", {"mean-gradient", "gradient-is-derivative", "composition-order"}, "component-gradients-exact",
                     "the marginal-likelihood and LOO gradients are assembled from the kernels' and means' own gradient lists")
+    # the LOO formulas and both gradients read the stored alpha = K^-1 (y - mu) and the factor L as given: that they ARE that is the
+    # closed-form clause of C02 (its predictors use the same two attributes), decided there
+    shared += borrow(prog, tier, "C02", {"posterior-closed-form", "factor-of", "triangular-solves"}, "stored-solve-is-exact",
+                     "alpha and L, which the scores read from the object, must be K^-1 (y - mu) and the Cholesky factor of K + S")
     obs, info = [], []
     obs.extend(shared)
     problems = []
